@@ -12,6 +12,7 @@ import (
 	"github.com/b2broker/simplefix-go/storages/memory"
 	"sort"
 	"time"
+	stdtime "time"
 
 	fixgen "github.com/b2broker/simplefix-go/tests/fix44"
 	"vlib"
@@ -29,6 +30,7 @@ type gridCase struct {
 	Acts    []gact `json:"acts"`
 	Horizon int64  `json:"horizon_ms"`
 	Pattern string `json:"pattern,omitempty"`
+	Loc     string `json:"location,omitempty"` // Opts.Location of the session (a zone east or west of UTC)
 	// PrevN > 0: the session was logged on before with heartbeat interval PrevN, the peer logged out
 	// and logs on again with N on the same connection; action times and the horizon count from the
 	// second logon
@@ -56,7 +58,7 @@ type gridObs struct {
 }
 
 func gridRun(c gridCase) (o gridObs, sig, detail string) {
-	cfg := wcfg{Role: c.Role, Buf: 10, HbMin: 1, HbMax: 100, HbInt: c.N}
+	cfg := wcfg{Role: c.Role, Buf: 10, HbMin: 1, HbMax: 100, HbInt: c.N, Location: c.Loc}
 	var fs *failingStore
 	if c.FailSave > 0 {
 		st := memory.NewStorage()
@@ -523,6 +525,21 @@ func runGrid(R *vlib.Out, prop string) {
 					}
 				}
 				return true
+			}
+			if N == Ns[0] {
+				// a session that writes its timestamps in a zone east or west of UTC keeps the same rhythm: idle,
+				// and with one application send or one inbound message part-way through a period
+				for _, loc := range []string{"Asia/Tokyo", "America/New_York"} {
+					if _, err := stdtime.LoadLocation(loc); err != nil {
+						R.Note("time zone database not available: location cases skipped")
+						break
+					}
+					for _, acts := range [][]gact{nil, {{Tms / 3, 1}}, {{Tms / 2, 2}}, {{Tms / 3, 1}, {Tms, 1}}} {
+						if !try(gridCase{Role: role, N: N, Acts: acts, Horizon: horizon, Pattern: "location", Loc: loc}) {
+							return
+						}
+					}
+				}
 			}
 			if prop == "C09" {
 				// retransmissions from the peer (PossDupFlag=Y) are inbound traffic too: one anywhere on the
